@@ -490,6 +490,15 @@ def all_jobs():
                       **({'bounded_inputs': True, 'thorough': dict(unwind=uw + 6, unwind_why=uw_why.replace('at most 2', 'at most 4') + ' (thorough tier)',
                                                                      defines=['BUILTIN_FN=' + mg, 'BUILTIN_CLASS=' + cls, 'BUILTIN_NARGS=%d' % nargs, 'BUILTIN_STR_MAX=%d' % (strmax + 2)] + (['BUILTIN_TYPE=' + ftype] if ftype else []) + (['BUILTIN_TYPE_FOLLOWS_COMPLEX'] if follows else []) + ([tyform] if tyform else []) + (['BUILTIN_RESULT_IS_CONTAINER'] if ftype in ('LITERAL', 'TABCHAR') else []) + (['BUILTIN_ABS'] if name == 'abs' else []) + (['BUILTIN_IS_INT'] if name == 'int' else []) + (['BUILTIN_IS_NUM'] if name == 'num' else []) + (['BUILTIN_IS_ISNUM'] if name == 'isnum' else []))} if strmax else {}),
                       structs=DEFAULT_STRUCTS + [STD_STRING, VEC_CHAR, 'bloc::Imaginary', 'std::complex<double>', 'bloc::Context', 'bloc::' + cls]))
+        if name in C10_BUILTINS:
+            # C10 names these builtins: "never read outside the data, and leave their arguments unchanged" -- the safety obligations and
+            # the operand frame clauses of the job belong to C10 as well as to C01 / C05
+            J[-1]['defines'] = J[-1]['defines'] + ['BUILTIN_C10']
+            if 'thorough' in J[-1] and 'defines' in J[-1]['thorough']:
+                J[-1]['thorough']['defines'] = J[-1]['thorough']['defines'] + ['BUILTIN_C10']
+            J[-1]['safety_props'] = ['C10']
+            if 'C10' not in J[-1]['props']:
+                J[-1]['props'] = J[-1]['props'] + ['C10']
         if name == 'mod':
             J[-1]['uf'] = True   # the clause about the value of % is decided with % uninterpreted (as for the operator)
         if ftype or follows or tyform:
@@ -499,8 +508,14 @@ def all_jobs():
                           cut=['VCALL_Expression_type', RTE_CTOR, RTE_CTOR_S], props=['C01', 'C02'], pretty='bloc::%s::type' % cls, canaries=['normal'],
                           defines=['BUILTIN_TYPE_FN=' + tmg, 'BUILTIN_CLASS=' + cls] + (['BUILTIN_TYPE=' + ftype] if ftype else ([tyform] + (['BUILTIN_ABS'] if name == 'abs' else []) if tyform else ['BUILTIN_TYPE_FOLLOWS_COMPLEX'])),
                           structs=DEFAULT_STRUCTS + [STD_STRING, VEC_CHAR, 'bloc::Context', 'bloc::' + cls]))
+    # C10 ("return the documented value or raise a BLOC error, never read outside the data"): in the jobs over the builtins that
+    # property names, a failed safety obligation (pointer, bounds, container precondition, undefined arithmetic) is a C10 violation too
+    for j in J:
+        if 'C10' in j['props'] and j['src'].startswith('blocc/builtin/') and 'C10' not in j.get('safety_props', []):
+            j['safety_props'] = j.get('safety_props', []) + ['C10']
     return J
 
+C10_BUILTINS = set('substr lsubstr rsubstr subraw strpos replace trim ltrim rtrim upper lower tokenize strlen hex hash chr raw str num int isnum b64enc b64dec'.split())
 # builtins under the generic contract (name, class, number of arguments); see tools/try_builtins.sh for how the list was grown
 # compiled type of the builtins whose type() is a constant (blocc/builtin/builtin_<name>.h / .cpp): checked as C02
 BUILTIN_FIXED_TYPE = dict(atan2='NUMERIC',
